@@ -380,7 +380,7 @@ def gen_params(r, panel, elig_rows, focus=None, allow=('size', 'ratio', 'volume'
 
 def gen_experiment(r, g, n_pre=None, n_test=None, n_cool=None, n_ctl=None, n_trt=None,
                    cost_mode=None, shape=None, extras=None, lift=None, int_dtype=None,
-                   cost_scale=1.0, noise_level=None, date_style=None):
+                   cost_scale=1.0, noise_level=None, date_style=None, cooldown_spend=0.0):
   """A geo experiment frame description (geo x date x group/period/response/cost).
 
   Returns dict: frame (DataFrame, columns date geo group period response cost), plus the
@@ -466,7 +466,11 @@ def gen_experiment(r, g, n_pre=None, n_test=None, n_cool=None, n_ctl=None, n_trt
           cost = np.where(np.array([p in (1, 2, 3) for p in periods]), 4.0, cost)
       if grp == 2:
         resp = resp + size * lift * in_test
-        cost = cost + size * pick(r, [3.0, 10.0]) * in_test
+        spend = size * pick(r, [3.0, 10.0])
+        cost = cost + spend * in_test
+        if cooldown_spend:
+          # the campaign tails off: the treatment group still spends (less) during the cooldown period
+          cost = cost + spend * cooldown_spend * np.array([p == 2 for p in periods])
       cost = cost * cost_scale
       for k in range(D):
         rows.append((dates[k], gid, grp, periods[k], float(resp[k]), float(cost[k])))
